@@ -410,12 +410,12 @@ class OpsMixin:
         if isinstance(v, bool):
             return int(v)
         if isinstance(v, int):
-            return v
+            return -2 if v == -1 else v      # CPython: hash(-1) == hash(-2) == -2
         if isinstance(v, SymNum):
             if v.conc is not None:
                 c = v.conc
                 if isinstance(c, float) and c.is_integer():
-                    return int(c)
+                    return -2 if int(c) == -1 else int(c)
                 return c
             return ("sym", id(v))
         if isinstance(v, str) or v is None:
